@@ -128,7 +128,9 @@ def norm(x, depth=0):
     if o is None:
         return ("cls", x)
     if o in (typing.Union, types.UnionType):
-        return ("Union", frozenset(norm(e, depth + 1) for e in a))
+        ms = frozenset(norm(e, depth + 1) for e in a)
+        # typing collapses a union of equal members (Dict[str, X] | dict[str, X] after rewriting) into that member
+        return next(iter(ms)) if len(ms) == 1 else ("Union", ms)
     if o is typing.Literal:
         return ("Literal", frozenset((type(v).__name__, v) for v in a))  # typing interns equal Literals (order-free equality)
     if o is typing.Annotated:
